@@ -54,7 +54,7 @@ Proof.
   destruct (indicator_facts _ Hi) as (_ & I39 & I34 & I124 & I62).
   set (fl := flat_of_plain l0 more) in *.
   unfold value_spec. cbn [value_text value_meaning]. rewrite print_plain_flat, mean_plain_flat. fold fl.
-  exists c, (w' ++ print_flat fl ++ sp tsp ++ print_comment cm ++ [10] ++ nls trail).
+  exists c, (w' ++ print_flat fl ++ sp tsp ++ print_comment cm ++ [10] ++ bl trail).
   split; [rewrite Ew, <- !app_assoc; reflexivity|].
   split; [unfold stopc, lbc; repeat split; charfact|].
   intros s c0 t0 Hcol Hc0 Hr. unfold value_scan.
@@ -68,21 +68,21 @@ Proof.
       rewrite <- !app_assoc. reflexivity.
     + cbn [forallb]. rewrite wf_blanks, andb_true_r. exact Htc.
     + discriminate.
-    + apply (scan_plain_flat false (sp tsp ++ 35 :: (tc ++ [10] ++ nls trail ++ c0 :: t0)) (sp tsp)).
+    + apply (scan_plain_flat false (sp tsp ++ 35 :: (tc ++ [10] ++ bl trail ++ c0 :: t0)) (sp tsp)).
       * intros f. apply tailspec_comment. exact Htsp.
       * rewrite app_length. cbn [length]. lia.
       * exact Hw.
       * exact Hflat.
       * rewrite Hr, <- !app_assoc. reflexivity.
-  - exists ((pl_first l0 ++ print_flat fl) ++ sp tsp ++ [10] ++ nls trail), [].
+  - exists ((pl_first l0 ++ print_flat fl) ++ sp tsp ++ [10] ++ bl trail), [].
     split; [|split; [|split]].
     + cbn [print_ltails map concat app]. rewrite app_nil_r, <- !app_assoc. reflexivity.
     + reflexivity.
     + intros _. rewrite after_app.
-      pose proof (col_after_nls (after s (pl_first l0 ++ print_flat fl)) (sp tsp) trail [] (Forall_nil _)) as Hc'.
+      pose proof (col_after_bl (after s (pl_first l0 ++ print_flat fl)) (sp tsp) trail [] (Forall_nil _)) as Hc'.
       rewrite !app_nil_r in Hc'. exact Hc'.
-    + apply (scan_plain_flat false ((sp tsp ++ [10] ++ nls trail) ++ c0 :: t0) (sp tsp ++ [10] ++ nls trail)).
-      * intros f. apply tailspec_break. apply item_start_line. exact Hc0.
+    + apply (scan_plain_flat false ((sp tsp ++ [10] ++ bl trail) ++ c0 :: t0) (sp tsp ++ [10] ++ bl trail)).
+      * intros f. apply tailspec_break. apply item_start_line. apply Hc0. reflexivity.
       * rewrite !app_length. cbn [length]. lia.
       * exact Hw.
       * exact Hflat.
@@ -95,13 +95,14 @@ Lemma print_items_length items : forallb wf_item items = true ->
   (length items <= length (print_items items))%nat.
 Proof.
   intros Hwf. apply concat_length_ge. intros it _.
-  destruct it as [t tr|k ksp v tr]; cbn [print_item]; rewrite ?app_length; cbn [length]; lia.
+  destruct it as [n t tr|k ksp v tr]; cbn [print_item]; rewrite ?app_length; cbn [length]; lia.
 Qed.
 
 Theorem block_agree b : wf_block b = true -> Forall item_ok (b_items b) ->
   options_to_items (print_block b) = Ok (meaning_block b).
 Proof.
-  intros Hwf Hok. unfold wf_block in Hwf. unfold options_to_items, tokenize.
+  intros Hwf Hok. unfold wf_block in Hwf. apply andb_true_iff in Hwf as [Hwf Hadj].
+  unfold options_to_items, tokenize.
   set (s := new_stream (print_block b)).
   assert (Hinv : tok_inv s (blanks (b_lead b)) (b_items b)).
   { split; [|split].
@@ -109,7 +110,7 @@ Proof.
       replace CHARS_END with [0] by reflexivity. rewrite <- app_assoc. reflexivity.
     - apply wf_blanks.
     - reflexivity. }
-  destruct (tokenize_f_spec (length (b_items b)) (b_items b) (le_n _) (fuel_of s) s _ Hwf Hok Hinv)
+  destruct (tokenize_f_spec (length (b_items b)) (b_items b) (le_n _) (fuel_of s) s _ Hwf Hadj Hok Hinv)
     as (toks & Ht & Hs).
   { unfold fuel_of. destruct Hinv as [Hr _]. rewrite Hr, !app_length.
     pose proof (print_items_length _ Hwf). lia. }
